@@ -578,6 +578,25 @@ func experiment(bin, base string, cp crashPoint, idx int) *outcome {
 			return o
 		}
 		_ = pstarted
+		// ground truth from S's own trace: the id E answered with, and whether the stdin transfer had completed
+		// (RemoteUnit.tla, BoundOnceShipped: from then on the record must name E's unit, whatever happens to S)
+		xid, shipped := "", false
+		for _, e := range evs {
+			if e.Str("id") != k.ID {
+				continue
+			}
+			if e.Str("ev") == "rw_submitted" {
+				xid = e.Str("remote_id")
+			}
+			if e.Str("ev") == "rw_stdin_shipped" {
+				shipped = true
+			}
+		}
+		if shipped && xid != "" && unit != xid {
+			viol("C04:remote-binding-lost"+suffix, fmt.Sprintf("unit %s: E answered the submission with unit %s and had received the whole stdin when S died; after restart the record names %q (the remote unit is orphaned)", k.ID, xid, unit))
+
+			return o
+		}
 		// once the id of the remote unit is on record the local unit is bound to it - started or not
 		checkBinding := func(m map[string]any) bool {
 			_, u, _ := remoteBinding(m)
@@ -1076,6 +1095,7 @@ func c04Main(args []string) {
 				"finish/daemon/submit_after_stdin_copy#1", "long/daemon/start_after_spawn#1", "finish/daemon/daemon_on_runner_exit#1",
 				"finish/daemon/ufs_before_write#0", "finish/daemon/ufs_after_write#0", "finish/runner/ufs_before_write#1", "long/runner/runner_after_child_start#1",
 				"remote/daemon/submit_after_stdin_copy#1", "remote/daemon/ufs_after_write#0", "remote/daemon/submit_after_start#1",
+				"remote/daemon/remote_after_stdin_shipped#1",
 				"cancel/daemon/cancel_after_signal#1", "release/daemon/release_after_rmdir#1", "finish/daemon/save_after_trunc#1", "long/daemon/submit_after_start#1",
 			} {
 				nk := strings.SplitN(want, "#", 2)
